@@ -142,12 +142,38 @@ def run(tier, seed, model):
                  "x {host, host:N, host::P} x 14 numbers; 14 bracketed IPv6 literals x the same forms; the four rejection shapes) "
                  "plus random 1-3 edit neighbours; real parse_server vs expected tuple and vs the extracted Coq model; "
                  "non-trivial = string with an expected result by the grammar (distinct strings)")
+    # --- the file system may change between two calls: "UNIX for an existing socket path" is about NOW
+    hist = os.path.join(tmp, "later.sock")
+    steps = [("before it exists", False), ("after it was created", True), ("asked again", True), ("after it was removed", False),
+             ("after it was created again", True)]
+    for forms in (lambda p: p, lambda p: p + ":3", lambda p: p + "::77"):
+        for label, exists in steps:
+            if exists and not os.path.exists(hist):
+                open(hist, "w").close()
+            if not exists and os.path.exists(hist):
+                os.remove(hist)
+            srv = forms(hist)
+            port = 5900 if srv == hist else (5903 if srv.endswith(":3") and not srv.endswith("::3") else 77)
+            exp = (1 if exists else 0, hist, port)
+            got = real(srv)
+            camp.evaluations += 1
+            camp.count("path-history")
+            camp.nontrivial.add(("history", srv, label))
+            if got != exp:
+                camp.oracle_failures.append({"kind": "oracle", "property": "C20", "case": {"server": srv, "history": label},
+                                             "what": f"parse_server({srv!r}) {label}: {got!r}, expected {exp!r} (family UNIX exactly "
+                                                     "while the path exists)"})
+                break
+    if os.path.exists(hist):
+        os.remove(hist)
     os.remove(sockpath)
     os.rmdir(tmp)
     return camp
 
 
 def replay(payload):
+    if "history" in payload["case"]:
+        return True, "replay: file-system history case; re-run ./check C20"
     s = payload["case"]["server"]
     got = real(s)
     exp = payload["case"].get("expected")
